@@ -206,6 +206,14 @@ def document(input_file: str, settings: Settings):
             logger.debug(f"Subdirs: {subdirs}")
             logger.debug(f"Root: {root}")
 
+            # os.walk() lists symbolic links to directories among the subdirectories but only descends
+            # into them when it follows links. Without that they get no index.rst of their own,
+            # keep them out of the toctree as well
+            if not settings.input.follow_symlinks:
+                for subdir in copy.copy(subdirs):
+                    if os.path.islink(os.path.join(root, subdir)):
+                        subdirs.remove(subdir)
+
             # Never treat the output directory as input. It may lie inside the input tree,
             # descending into it would document the directories this run is creating
             if output_path is not None:
